@@ -543,6 +543,25 @@ macro_rules! buf_enum {
             pub fn addr_len_cap(&self) -> (usize, usize, usize) {
                 match self { $($name::$t(v) => (v.as_ptr() as usize, v.len(), v.capacity()),)+ }
             }
+            /// Canary: fill the spare capacity behind the last element with a byte pattern ...
+            pub fn canary_fill(&mut self) {
+                match self { $($name::$t(v) => {
+                    let spare = v.spare_capacity_mut();
+                    let n = core::mem::size_of_val(spare);
+                    // Safety: spare capacity is allocated, uninitialised memory owned by the vector; bytes may be written
+                    unsafe { core::ptr::write_bytes(spare.as_mut_ptr() as *mut u8, 0xA5, n) };
+                },)+ }
+            }
+            /// ... and check that nothing wrote past the end of the buffer (number of clobbered bytes).
+            pub fn canary_damage(&mut self) -> usize {
+                match self { $($name::$t(v) => {
+                    let spare = v.spare_capacity_mut();
+                    let n = core::mem::size_of_val(spare);
+                    // Safety: every byte of the spare capacity was initialised by `canary_fill` (or by a stray write)
+                    let bytes = unsafe { core::slice::from_raw_parts(spare.as_ptr() as *const u8, n) };
+                    bytes.iter().filter(|b| **b != 0xA5).count()
+                },)+ }
+            }
         }
 
         pub fn $make(tag: u8, words: &[Words], extra_cap: usize) -> $name {
